@@ -181,6 +181,7 @@ Record pcase := {
   pc_fp : Z;                         (* observed: fingerprint of the sample / series row *)
   pc_fps : list Z;                   (* observed: the same content sent in other orders *)
   pc_fp_djb : Z;                     (* observed: the same request under FingerPrintType = Bernstein *)
+  pc_fps_djb : list Z;               (* observed: the other orders under FingerPrintType = Bernstein *)
   pc_doc : string                    (* observed: the series row's labels text *)
 }.
 Definition pc_labels (c : pcase) : list label := on_entries_labels 0 (wire_labels (pc_wire c)).
@@ -202,7 +203,8 @@ Definition pm_doc (c : pcase) : bool :=
           end)
   else negb (String.eqb (encode_labels ip (pc_labels c)) (pc_doc c)).
 (* spec oracles on the observations: every order gives the same fingerprint; the document decodes to the labels *)
-Definition pv_perm (c : pcase) : bool := negb (forallb (fun f => f =? pc_fp c) (pc_fps c)).
+Definition pv_perm (c : pcase) : bool :=
+  negb (forallb (fun f => f =? pc_fp c) (pc_fps c) && forallb (fun f => f =? pc_fp_djb c) (pc_fps_djb c)).
 Definition pv_doc (c : pcase) : bool :=
   negb (match json_decode (pc_doc c) with
         | Some l' => if map_ordered (pc_wire c) then same_labels l' (map fix_label (pc_labels c))
